@@ -387,9 +387,89 @@ def window_class(violation, known):
     return violation.get('oracle', '').startswith('[unlocked-load-window]')
 
 
+class RealThreads(Suite):
+    """the real FileLock with real threads of one process (and forked processes): callers start while another caller of
+    the same entry is between writing aside and publishing (a cache subclass that pauses there): no call fails, every call
+    returns a complete value, the entry is complete at the end.  The cooperative scheduler above replaces the lock by its
+    own; this suite is the one place where the library's lock object itself is exercised.  Runtime check only."""
+    name = 'real_lock_real_threads'
+    model = ''
+
+    def gen(self, rng, tier):
+        return [dict(n=n, force=f, how=h, delay=d) for n in (2, 3) for f in (False, True) for h in ('threads', 'processes')
+                for d in (0.03, 0.08)]
+
+    def run_impl(self, case):
+        import time
+        import taskchain.cache as tc
+        d = tempfile.mkdtemp(prefix='tcverif-realconc-')
+        try:
+            class Slow(tc.JsonCache):
+                def save_value(self, filepath, key, value):
+                    super().save_value(filepath, key, value)
+                    time.sleep(0.15)         # written aside, not yet published
+
+            def call(i, q=None):
+                cache = Slow(Path(d) / 'c')
+                time.sleep(i * case['delay'])
+                try:
+                    r = ['value', cache.get_or_compute('k', lambda: {'by': i, 'payload': 'x' * 2000}, force=case['force'])]
+                except Exception as e:
+                    r = ['exception', type(e).__name__]
+                if q is not None:
+                    q.put((i, r))
+                return r
+            results = {}
+            if case['how'] == 'threads':
+                def worker(i):
+                    results[i] = call(i)
+                ths = [threading.Thread(target=worker, args=(i,)) for i in range(case['n'])]
+                for t in ths:
+                    t.start()
+                for t in ths:
+                    t.join(20)
+            else:
+                import multiprocessing as mp
+                ctx = mp.get_context('fork')
+                q = ctx.Queue()
+                ps = [ctx.Process(target=call, args=(i, q)) for i in range(case['n'])]
+                for p_ in ps:
+                    p_.start()
+                for _ in ps:
+                    i, r = q.get(timeout=20)
+                    results[i] = r
+                for p_ in ps:
+                    p_.join(5)
+            final = tc.JsonCache(Path(d) / 'c').get('k')
+            return dict(results=[results.get(i) for i in range(case['n'])], final=None if final is tc.NO_VALUE else final)
+        finally:
+            shutil.rmtree(d, ignore_errors=True)
+
+    def oracle(self, case, obs):
+        if 'unexpected_exception' in obs:
+            return f'unexpected exception {obs["unexpected_exception"]}: {obs["text"]}'
+        for i, r in enumerate(obs['results']):
+            if r is None:
+                return f'{case}: caller {i} did not return'
+            if r[0] == 'exception':
+                return f'{case}: caller {i} failed with {r[1]} while another caller of the same entry was writing'
+            if not (isinstance(r[1], dict) and r[1].get('payload') == 'x' * 2000 and r[1].get('by') in range(case['n'])):
+                return f'{case}: caller {i} returned {str(r[1])[:80]}, not a complete value'
+        f = obs['final']
+        if not (isinstance(f, dict) and f.get('payload') == 'x' * 2000):
+            return f'{case}: at quiescence the entry is {str(f)[:80]}'
+        return None
+
+    def nontrivial(self, case, obs):
+        return True
+
+    def key(self, case):
+        return repr(case)
+
+
 class C15(Prop):
     pid = 'C15'
-    suites = [Schedules()]
+    suites = [Schedules(), RealThreads()]
     known_classes = {'unlocked-load-window': window_class}
     trusted_base = ['filelock is replaced by a cooperative lock in the correspondence: mutual exclusion of the real '
                     'FileLock is trusted; processes, flock semantics and chunked reads of large files are not modelled (partial)',
